@@ -614,6 +614,12 @@ def _w_reconstruct(case, ctx, rng, shape, N):
     core, fm = gen.rand_ttensor_parts(rng, shape, ranks)
     TT = gen.mk_ttensor(ttb, core, fm)
     A = denote(TT)
+    sparse_f = bool(rng.integers(0, 3) == 0)
+    ctx.feat(sparse_factors=sparse_f)
+    if sparse_f:
+        from scipy import sparse as sp
+
+        TT = ttb.ttensor(TT.core.copy(), [sp.coo_matrix(np.asarray(f, dtype=float)) for f in fm])
     got, ok = _try(ctx, "ttensor.reconstruct", TT.reconstruct)
     if ok:
         _compare(ctx, "ttensor.reconstruct", got, A, "ttensor", form="full")
